@@ -12,9 +12,12 @@ import (
 func (f *Formatter) formatExpression(expr ast.Expression) *ChunkBuffer {
 	buf := f.chunkBuffer()
 
-	// leading comment
-	if v := f.formatComment(expr.GetMeta().Leading, "", 0); v != "" {
-		buf.Write(v, Comment)
+	// leading comment (the node of a postfix expression is its operator: the comments before
+	// the operator are printed between the operand and the operator)
+	if _, ok := expr.(*ast.PostfixExpression); !ok {
+		if v := f.formatComment(expr.GetMeta().Leading, "", 0); v != "" {
+			buf.Write(v, Comment)
+		}
 	}
 
 	switch t := expr.(type) {
@@ -115,6 +118,10 @@ func (f *Formatter) formatPrefixExpression(expr *ast.PrefixExpression) *ChunkBuf
 func (f *Formatter) formatPostfixExpression(expr *ast.PostfixExpression) *ChunkBuffer {
 	buf := f.formatExpression(expr.Left)
 
+	// `10 /* comment */ %`
+	if v := f.formatComment(expr.Leading, "", 0); v != "" {
+		buf.Write(v, Comment)
+	}
 	if n := len(buf.chunks); n > 0 && buf.chunks[n-1].Type != Comment {
 		buf.chunks[n-1].buffer += expr.Operator
 	} else {
